@@ -79,6 +79,9 @@ def item_terms(ps, rnd):
         # falsy / None values stored in a Dict are values like any other (round-4 seed: a decode table that takes None for a miss)
         [F["dict1"](None, "."), F["dict1"](0, "_"), F["hexint"]()],
         [F["dict1"](False, "x"), F["dict1"]("", "y"), F["dict1"](None, "zz")],
+        # texts made of white space are texts like any other (a decoder that "tidies" its input must not touch them)
+        [F["dict1"](-1, " "), F["hexint"]()],
+        [F["dict1"]("nl", "\n"), F["dict1"]("tab", "\t"), F["spaces"](0, "g")],
     ]
     for fams in out:
         for a, b in itertools.combinations(fams, 2):
@@ -201,6 +204,19 @@ def _shape_cls(h, w):
     if h == 1 or w == 1:
         return "single-row-or-column"
     return "h,w>=2"
+
+
+def _scribble(x):
+    """edit a decoded problem in place wherever it is a mutable container (lists inside tuples included)"""
+    if isinstance(x, list):
+        for y in x:
+            _scribble(y)
+        if x and not isinstance(x[0], (list, tuple)):
+            x[0] = ("scribbled", x[0])
+        x.append("scribbled")
+    elif isinstance(x, tuple):
+        for y in x:
+            _scribble(y)
 
 
 def run_c15(rep, tier, seed):
@@ -504,6 +520,26 @@ def run_c16(rep, tier, seed):
                     viol("url:%s:history-text-differs" % m.name, "%s: the URL of the same %dx%d problem changed after decoding a %dx%d URL: %s vs %s" % (m.name, A[0], A[1], Bs[0], Bs[1], u1, u2), dict(module=m.name, problem=pa))
                 elif m.name != "yajilin" and back != expected_of(m, A[0], A[1], pa):
                     viol("url:%s:history-roundtrip" % m.name, "%s: after decoding another size the %dx%d problem no longer round-trips" % (m.name, A[0], A[1]), dict(module=m.name, problem=pa))
+    # a decoded problem belongs to the caller: editing it in place must not change what the same URL decodes to next time
+    import copy as _copy
+    for m in mods:
+        if m.name == "yajilin":
+            continue
+        for (h, w) in [(2, 3), (3, 3)]:
+            for _ in range(2):
+                try:
+                    p0 = m.gen(rnd, h, w)
+                    u = m.enc(h, w, p0)
+                    first = m.dec(u)
+                    want = _copy.deepcopy(first)
+                    _scribble(first)
+                    second = m.dec(u)
+                except Exception as e:
+                    viol("url:%s:decode-twice-exception:%s" % (m.name, type(e).__name__), "%s: decode, edit the result, decode again raised %s: %s" % (m.name, type(e).__name__, e), dict(module=m.name, problem=p0))
+                    continue
+                rep.evaluations += 1
+                if second != want:
+                    viol("url:%s:decoded-problem-shared-with-later-calls" % m.name, "%s: after the caller edited the problem it had decoded from %s, decoding the same URL again gives %r instead of %r" % (m.name, u, second, want), dict(module=m.name, url=u))
     # producers without decoder: star_battle, aquarium
     sb, aq = producers["star_battle"], producers["aquarium"]
     for n in (1, 2, 3, 5, 6):
